@@ -3,6 +3,8 @@ package main
 import (
 	"bytes"
 	"fmt"
+	"slices"
+	"strings"
 
 	"github.com/berquerant/crd/desc"
 	"github.com/berquerant/crd/errorx"
@@ -213,7 +215,12 @@ crd info key conv --key "C" -c "ps"`,
 			return err
 		}
 
-		for x := range result.Keys().All() {
+		// the keys live in a map: print them in a fixed order
+		keys := slices.Collect(result.Keys().All())
+		slices.SortFunc(keys, func(a, b op.Key) int {
+			return strings.Compare(a.String(), b.String())
+		})
+		for _, x := range keys {
 			if _, err := fmt.Fprintf(out, "%v\n", x); err != nil {
 				return err
 			}
